@@ -65,4 +65,63 @@ PROPS = {
         correspondence_only=["finite results at sizes of thousands of chromosomes (f64 range)", "projection commutes with marginalization (explored via C13 chains)",
                              "project after create = project during create (stated and proved on the create model under C02)"],
     ),
+    "C01": dict(
+        theorems=["buildSite_ok", "shape_eq", "alt_in_bounds", "run_eq_spec", "unselected_irrelevant", "incomplete_contributes_nothing", "mass_le_records"],
+        nontrivial=r"^c01-(mem-noproj-pops[2-9]|mem-noproj-pops1-S?P?I|cli-.*-ok-noproj-skips|cli-.*-err)",
+        rule="exhaustive: all 26 maps of 3 columns into <= 2 populations x all 64 records over {0,1,2,missing}^3 (in-process); random: 1-4 populations of unequal size, 2-12 (thorough 40) columns, "
+             "any subset listed in any order, named/unnamed mix, 1-30 (thorough 300) records over called/missing/multiallelic/ploidy-error genotypes with 'only an unselected sample is bad' forced in 10%, "
+             "two contigs, extra INFO/FORMAT fields; 300 in-process + 50 CLI (thorough 3000 + 400) over vcf/vcf.gz/bcf/raw bcf; stdout compared byte for byte (precision forced to 0); "
+             "non-trivial = distinct request with >= 2 populations, or with both counted and skipped records, or a failing run",
+        exhaustive=True, assumptions=["in-process cases drive the real site::Reader through an in-memory genotype::Reader; CLI cases run the real binary on generated VCF text / BCF (noodles writer, or a hand-written BCF2.2 encoder for mixed ploidy) / BGZF", "noodles (VCF/BCF/BGZF parsing), clap and env_logger are exercised, not modelled"],
+    ),
+    "C02": dict(
+        theorems=["site_classification", "contribution_projected", "exact_eq_projected", "insufficient_contributes_nothing", "run_projected_eq_spec",
+                  "individuals_eq_shape", "unequal_dimensions_error", "oversized_error", "zero_error", "admissible_ok", "create_then_project"],
+        nontrivial=r"^c02-(mem-proj-.*P|mem-proj-.*S.*I|mem-proj-.*I.*|mem-build-error|cli-)",
+        rule="exhaustive: 2 populations of 1-2 samples x every target m_j in 0..2n_j x all records over {0,1,2,missing}^n (in-process, incl. t = m for all j, t_j = m_j - 2, m_j = 0); "
+             "random maps/targets incl. inadmissible ones (larger, other dimensionality, zero), -p vs --project-shape; cohorts of 90-600 (thorough 3000) samples in one population (binomials beyond f64 range); "
+             "CLI with --precision in {0,1,6,15,default}; values within 2^-30 relative (+ half a unit of the printed decimal for CLI text) of the exact rational model; "
+             "non-trivial = distinct request containing a down-sampled or insufficient site, a builder error, or any CLI run",
+        exhaustive=True, assumptions=["in-process cases drive the real site::Reader through an in-memory genotype::Reader; CLI cases run the real binary on generated VCF text / BCF (noodles writer, or a hand-written BCF2.2 encoder for mixed ploidy) / BGZF", "noodles (VCF/BCF/BGZF parsing), clap and env_logger are exercised, not modelled"] + ["binary64 evaluation of the hypergeometric pmf is compared with the exact value within 2^-30 relative, not proved"],
+    ),
+    "C08": dict(
+        theorems=["classify_spec", "classify_ploidy", "classify_range", "parseGT_phasing", "parseGT_render", "parseGT_dot", "tally_none_iff", "ploidy_aborts", "error_stops_run", "unselected_ignored"],
+        nontrivial=r"^c08-cli-",
+        rule="every GT string over alleles {., 0, 1, 2, 3, 10} x separators {/,|} x ploidy 1-2 (all 78) and ploidy 3 (60 sampled; thorough all 864, plus allele 62/255/2^31 in VCF), placed in a selected column, "
+             "an unselected column, or with all columns selected, through the VCF text path and the BCF binary path (mixed-ploidy GT vectors with end-of-vector padding), followed by a second record; "
+             "observed: exit status, stdout bytes, skipped summary, error site 'contig:pos'; non-trivial = every distinct request (finite alphabet)",
+        exhaustive=True, assumptions=["in-process cases drive the real site::Reader through an in-memory genotype::Reader; CLI cases run the real binary on generated VCF text / BCF (noodles writer, or a hand-written BCF2.2 encoder for mixed ploidy) / BGZF", "noodles (VCF/BCF/BGZF parsing), clap and env_logger are exercised, not modelled"] + ["GT '.' (whole field missing) is a missing genotype (interpretation fixed by commit b7debed)"],
+    ),
+    "C09": dict(
+        theorems=["distinct_first_appearance", "ids_first_appearance", "duplicate_sample_last_wins", "axis_len", "column_perm_invariant", "list_reorder_invariant",
+                  "site_depends_on_lookup", "arg_item", "samples_arg_eq_file", "empty_list_is_error", "unknown_sample_is_error"],
+        nontrivial=r"^c09-cli-",
+        rule="150 (thorough 1500) call sets x sample lists (subset, random order, named/unnamed mix) given inline (-s) and as a file (-S), 3 permutations of list entries, 3 permutations of the input columns "
+             "(VCF and BCF), plus error lists (absent sample, empty file, sample listed twice with different labels); every variant compared with the model, whose invariance under these transformations is proved; "
+             "non-trivial = every distinct request",
+        exhaustive=False, assumptions=["in-process cases drive the real site::Reader through an in-memory genotype::Reader; CLI cases run the real binary on generated VCF text / BCF (noodles writer, or a hand-written BCF2.2 encoder for mixed ploidy) / BGZF", "noodles (VCF/BCF/BGZF parsing), clap and env_logger are exercised, not modelled"],
+    ),
+    "C10": dict(
+        theorems=["site_weight_one", "conservation", "run_error_iff", "strict_first", "all_or_nothing", "summary_line"],
+        nontrivial=r"^c10-cli-",
+        rule="40 (thorough 400) record streams of length 1-8 x {non-strict, strict} x a fault (ploidy error in a selected column, a site that would be skipped, a corrupt POS field, a truncated line) inserted at every "
+             "position 0..len (half of them in quick), with projection in a third of the streams; checked: exit status, stdout empty on failure, 'Skipped X/Y' parsed and X + mass = Y via the model, error names "
+             "contig:pos of the first offending record; non-trivial = every distinct request",
+        exhaustive=True, assumptions=["in-process cases drive the real site::Reader through an in-memory genotype::Reader; CLI cases run the real binary on generated VCF text / BCF (noodles writer, or a hand-written BCF2.2 encoder for mixed ploidy) / BGZF", "noodles (VCF/BCF/BGZF parsing), clap and env_logger are exercised, not modelled"] + ["for a corrupt record the reported position is not compared (noodles' reader state), only the error kind, exit status and empty stdout"],
+    ),
+    "C11": dict(
+        theorems=["readSite_eq_spec", "readSite_lengths", "readSite_stateless", "run_eq_sum", "run_append", "run_perm"],
+        nontrivial=r"^c11-(mem-.*(SP|SI|PI|SPI)|cli-)",
+        rule="all 36 ordered pairs (predecessor kind, successor kind) of the six site kinds x 4 projection settings; 120 (thorough 1000) random sequences of 2-12 records x every split point (both parts) x 5 (thorough 20) "
+             "permutations, in-process with the per-record site kind sequence compared item by item; CLI on concatenated / permuted VCF and BCF; non-trivial = distinct request mixing at least two site kinds",
+        exhaustive=True, assumptions=["in-process cases drive the real site::Reader through an in-memory genotype::Reader; CLI cases run the real binary on generated VCF text / BCF (noodles writer, or a hand-written BCF2.2 encoder for mixed ploidy) / BGZF", "noodles (VCF/BCF/BGZF parsing), clap and env_logger are exercised, not modelled"],
+    ),
+    "C12": dict(
+        theorems=["detect_magic", "pipeline_factors", "shape_by_lookup"],
+        nontrivial=r"^c12-same",
+        rule="12 (thorough 60) call sets (up to 3000 records, with/without projection and sample lists, one ending in a ploidy error) each run as {vcf, vcf.gz, bcf, raw bcf} x {path, stdin} x threads {1,3,16} "
+             "(thorough 1,2,3,4,8,16) x BGZF layouts (one line per block, random cuts incl. mid-line, interleaved empty blocks; thorough also single block / 9 even cuts) x 2 (thorough 3) repeated executions: "
+             "all stdout bytes and exit classes must be identical, and equal to the model's output; non-trivial = every distinct call set (each stands for 64-200 executions)",
+        exhaustive=False, assumptions=["in-process cases drive the real site::Reader through an in-memory genotype::Reader; CLI cases run the real binary on generated VCF text / BCF (noodles writer, or a hand-written BCF2.2 encoder for mixed ploidy) / BGZF", "noodles (VCF/BCF/BGZF parsing), clap and env_logger are exercised, not modelled"] + ["thread scheduling, OS pipes and hash seeds are runtime behaviour: explored by repetition, not proved"],
+    ),
 }
